@@ -661,6 +661,29 @@ class _Canon(ast.NodeTransformer):
         return out
 
     @staticmethod
+    def _extend_loop(body):
+        """`xs.extend(E for t in IT if C)` (generator or list comprehension, one for clause)  ->  `for t in IT: if C: xs.append(E)`"""
+        out = []
+        for st in body:
+            c = st.value if isinstance(st, ast.Expr) else None
+            if (isinstance(c, ast.Call) and isinstance(c.func, ast.Attribute) and c.func.attr == "extend" and len(c.args) == 1 and not c.keywords and isinstance(c.args[0], (ast.GeneratorExp, ast.ListComp))
+                    and len(c.args[0].generators) == 1 and not c.args[0].generators[0].is_async and isinstance(c.func.value, (ast.Name, ast.Attribute))):
+                g = c.args[0].generators[0]
+                app = ast.copy_location(ast.Expr(value=ast.copy_location(ast.Call(func=ast.Attribute(value=c.func.value, attr="append", ctx=ast.Load()), args=[c.args[0].elt], keywords=[]), st)), st)
+                inner = [app]
+                if g.ifs:
+                    test = g.ifs[0] if len(g.ifs) == 1 else ast.BoolOp(op=ast.And(), values=list(g.ifs))
+                    inner = [ast.copy_location(ast.If(test=test, body=[app], orelse=[]), st)]
+                loop = ast.copy_location(ast.For(target=g.target, iter=g.iter, body=inner, orelse=[]), st)
+                for n in ast.walk(loop.target):
+                    if isinstance(n, (ast.Name, ast.Tuple, ast.List)):
+                        n.ctx = ast.Store()
+                out.append(ast.fix_missing_locations(loop))
+            else:
+                out.append(st)
+        return out
+
+    @staticmethod
     def _append_form(body):
         """`xs.extend([e])` (a one-element list display)  ->  `xs.append(e)`"""
         for st in body:
@@ -678,7 +701,7 @@ class _Canon(ast.NodeTransformer):
             for f in ("body", "orelse", "finalbody"):
                 b = getattr(sub, f, None)
                 if isinstance(b, list) and b and isinstance(b[0], ast.stmt):
-                    setattr(sub, f, self._fold_body(self._join_branches(self._hoist_else(self._append_form(self._search_loop(self._filtered_iteration(b, node))))), cnt))
+                    setattr(sub, f, self._fold_body(self._join_branches(self._hoist_else(self._append_form(self._extend_loop(self._search_loop(self._filtered_iteration(b, node)))))), cnt))
             if isinstance(sub, ast.Try):
                 for h in sub.handlers:
                     h.body = self._fold_body(self._join_branches(self._hoist_else(h.body)), cnt)
